@@ -136,8 +136,12 @@ func runCase(c protox.Case) (res protox.Result) {
 		}
 		closePub = func() { pub.Close() }
 	}
+	var rtspSubConn func() int
 	writesAll := func() int {
 		n := rsub.Conn.Writes()
+		if rtspSubConn != nil {
+			n += rtspSubConn()
+		}
 		for _, s := range subs {
 			n += s.Conn.Writes()
 		}
@@ -168,13 +172,42 @@ func runCase(c protox.Case) (res protox.Result) {
 		}
 		return true
 	}
+	var rtspSub *world.RtspPeer
+	joinRtsp := func() bool {
+		if on, _ := conf["rtsp.enable"].(bool); !on {
+			return true
+		}
+		// an RTSP player (it can only be described once the sequence headers are known); without a key
+		// frame in the prefix it is playing and still waiting for one when the hostile message arrives
+		rtspSub, err = w.RtspPlayer("rtsp://h/live/victim", nil)
+		if fail(err, "rtsp player") {
+			return false
+		}
+		rtspSubConn = func() int { return rtspSub.Conn.Writes() }
+		return true
+	}
 	switch d.Prefix {
 	case "headers", "headers+key":
 		if !send(18, 0, sw.MakeMsg("metasdf", 0, 0, 0).Payload, "prefix metadata") || !send(9, 0, sw.MakeMsg("vsh", 1, 0, 0).Payload, "prefix vsh") || !send(8, 0, sw.MakeMsg("ash", 2, 0, 0).Payload, "prefix ash") {
 			return
 		}
+		if !joinRtsp() {
+			return
+		}
 		if d.Prefix == "headers+key" {
 			if !send(9, 40, sw.MakeMsg("key", 3, 40, 64).Payload, "prefix key") || !send(8, 40, sw.MakeMsg("aac", 4, 40, 32).Payload, "prefix aac") || !send(9, 400, sw.MakeMsg("inter", 5, 400, 64).Payload, "prefix inter") {
+				return
+			}
+		}
+	case "hheaders", "hheaders+key": // the same with an H.265 stream
+		if !send(9, 0, hevcSeqHeader(), "prefix hevc vsh") || !send(8, 0, sw.MakeMsg("ash", 2, 0, 0).Payload, "prefix ash") {
+			return
+		}
+		if !joinRtsp() {
+			return
+		}
+		if d.Prefix == "hheaders+key" {
+			if !send(9, 40, hevcFrame(0x1c, 19<<1, 64), "prefix hevc key") || !send(8, 40, sw.MakeMsg("aac", 4, 40, 32).Payload, "prefix aac") || !send(9, 400, hevcFrame(0x2c, 1<<1, 64), "prefix hevc inter") {
 				return
 			}
 		}
@@ -205,7 +238,11 @@ func runCase(c protox.Case) (res protox.Result) {
 	if len(d.Msgs) > 0 {
 		lastTs = d.Msgs[len(d.Msgs)-1].Ts + 40
 	}
-	if !send(9, lastTs, sw.MakeMsg("key", 9, lastTs, 64).Payload, "follow-up key frame") {
+	followUp := sw.MakeMsg("key", 9, lastTs, 64).Payload
+	if strings.HasPrefix(d.Prefix, "hheaders") {
+		followUp = hevcFrame(0x1c, 19<<1, 64)
+	}
+	if !send(9, lastTs, followUp, "follow-up key frame") {
 		return
 	}
 	if fail(w.Tick(), "tick") {
@@ -441,7 +478,79 @@ func buildCases(r *vk.Run) []protox.Case {
 			}
 		}
 	}
+	// short NAL units: every value of the NAL header byte (all NAL types incl. the RTP aggregation /
+	// fragmentation types 24-29 and 48-49, which the RTP packer and the key-frame gate of RTSP
+	// subscribers look into) x NAL lengths 1-3 x second byte, AVC and HEVC, with and without a key
+	// frame before (an RTSP player that is playing and still waiting for one, or already fed)
+	for _, codec := range []struct {
+		pre   string
+		first []byte
+	}{{"headers", []byte{0x17, 0x27}}, {"hheaders", []byte{0x1c, 0x2c}}} {
+		for _, pre := range []string{codec.pre, codec.pre + "+key"} {
+			for _, first := range codec.first {
+				for h := 0; h < 256; h++ {
+					for _, rest := range [][]byte{{}, {0x00}, {0x80}, {0xff}, {0x01, 0x80}, {0x00, 0x01, 0x65}} {
+						if quick && first&0xf0 == 0x10 && len(rest) > 1 {
+							continue
+						}
+						nal := append([]byte{byte(h)}, rest...)
+						p := []byte{first, 1, 0, 0, 0, 0, 0, 0, byte(len(nal))}
+						p = append(p, nal...)
+						cs = append(cs, mk(pre, "all", "rtmp", msg{9, 440, hex.EncodeToString(p)}))
+						if !quick || h%16 == 8 || h%16 == 12 {
+							// two such NALs in one message
+							q := append(append([]byte{}, p...), 0, 0, 0, byte(len(nal)))
+							q = append(q, nal...)
+							cs = append(cs, mk(pre, "all", "rtmp", msg{9, 440, hex.EncodeToString(q)}))
+						}
+					}
+				}
+			}
+		}
+	}
+	// H.265 sequence headers that are not a decoder configuration record: lal then looks for Annex-B
+	// start codes in them. Every string of <= 4 (quick) / 5 (thorough) segments over {4-byte start code,
+	// 3-byte start code, VPS / SPS / PPS NAL header, a payload byte, a zero byte} after the 5-byte tag
+	// header, padded in front to both sides of the 33-byte length guard
+	segs := [][]byte{{0, 0, 0, 1}, {0, 0, 1}, {0x40, 0x01}, {0x42, 0x01}, {0x44, 0x01}, {0xaa}, {0x00}}
+	maxSeg := 4
+	if !quick {
+		maxSeg = 5
+	}
+	var gen func(cur []byte, n int)
+	gen = func(cur []byte, n int) {
+		for _, pad := range []int{0, 12, 28, 40} {
+			b := []byte{0x1c, 0, 0, 0, 0}
+			for i := 0; i < pad; i++ {
+				b = append(b, 0xaa)
+			}
+			b = append(b, cur...)
+			for _, pre := range []string{"none", "hheaders+key"} {
+				if quick && pre != "none" && pad != 28 {
+					continue
+				}
+				cs = append(cs, mk(pre, "all", "rtmp", msg{9, 440, hex.EncodeToString(b)}))
+			}
+		}
+		if n == maxSeg {
+			return
+		}
+		for _, sg := range segs {
+			gen(append(append([]byte{}, cur...), sg...), n+1)
+		}
+	}
+	gen(nil, 0)
 	return cs
+}
+
+// hevcFrame: one AVCC-framed NAL of the given first header byte.
+func hevcFrame(first byte, nalHdr0 byte, size int) []byte {
+	n := size
+	p := []byte{first, 1, 0, 0, 0, byte(n >> 24), byte(n >> 16), byte(n >> 8), byte(n), nalHdr0, 1}
+	for i := 2; i < n; i++ {
+		p = append(p, byte(0x80|i))
+	}
+	return p
 }
 
 func hevcSeqHeader() []byte {
@@ -473,7 +582,7 @@ func main() {
 	r.Rule("one case = (well-formed prefix) x (output configuration) x (ingest path) x (1-3 hostile media messages from the payload-shape alphabet); each runs on a fresh real server in a worker process with subscribers present and joining later and a healthy second stream. distinct_nontrivial = distinct (prefix, config, path, first-message shape, outcome)")
 	r.Assume("messages are well framed (the reference chunk encoder); payload bytes, lengths and timestamps are arbitrary",
 		"bounded work is measured as the number of socket writes caused by one message (<= 400 + len/20), plus a 120 s per-case deadline; not as wall-clock latency",
-		"RTSP output is exercised through the remuxer (enabled) but without an RTSP subscriber in this check")
+		"an RTSP player joins as soon as the prefix has given the stream its sequence headers (without a key frame in the prefix it is playing and still waiting for one when the hostile message arrives)")
 	if r.ReplayIn != "" {
 		var c protox.Case
 		r.LoadReplay(&c)
